@@ -88,6 +88,11 @@ def run(ctx):
         ctx.ob("R5", "reject|%s|%s|%s" % k, loc(x.chain[0]), "rejection %s at %s %s" % (x.exc, x.chain[0].text[:60], "is caused by: " + cause if cause else "is not caused by any clause of the delegation rule: " + x.why), cause is not None)
     ctx.floor("R3.instances", 1)
 
+    # ---- "met by valid signatures" is C01's rule set, re-evaluated here
+    from . import c01
+
+    c01.run(ctx.sub("DEP-C01"))
+
 
 def _cause(p, x, name, U, T, gpg, D, K, th):
     from .vs import envelope
